@@ -247,6 +247,7 @@ HARNESSES = {
     "parsefuzz": dict(opt="-O1", sanitize=True, compiler="clang++-14"),
     "lifetime": dict(opt="-O1", sanitize=True, compiler="clang++-14"),
     "engines": dict(opt="-O1"),
+    "threads": dict(opt="-O1", tsan=True, compiler="clang++-14"),
     "json": dict(opt="-O1", sanitize=True, compiler="clang++-14", flags=["-fno-sanitize=signed-integer-overflow"]),
     "stl": dict(opt="-O1", sanitize=True, compiler="clang++-14"),
 }
@@ -557,7 +558,7 @@ def lean_obligations(ctx, prop_module_names, extra_targets=("chaimodel",)):
 
 # ---------------------------------------------------------------- extraction step
 EXTRACTORS = [("e_arith", "Arith.lean"), ("e_lit", "Lit.lean"), ("e_stl", "Stl.lean"), ("e_file", "File.lean"), ("e_json", "Json.lean"),
-              ("e_prelude", "Prelude.lean"), ("e_env", "Env.lean")]
+              ("e_prelude", "Prelude.lean"), ("e_env", "Env.lean"), ("e_locks", "Locks.lean")]
 
 
 def refresh_all_gen():
